@@ -1,8 +1,10 @@
 """C20 — the hash table behaves as a map under any operation history.
 
 Lean: SSVerif/Props/C20.lean (refinement of `hash_table.c`'s model to an abstract map, for every
-op sequence).  Tie: generated prime table + op files replayed on the real hash_table.c (ASan)
-and on the model's own definitions (ssdriver c20), outputs diffed.  Oracle: a Python dict.
+op sequence; Props/C20Iter.lean: the {ent, idx} cursor walk of hash_table_iter(_next) and the loop of
+hash_table_tolist enumerate buckets.flatten and end after exactly inuse visits).  Tie: generated prime table +
+op files replayed on the real hash_table.c (ASan) and on the model's own definitions (ssdriver c20; iter/tolist
+lines come from the modelled cursor walk), outputs diffed INCLUDING the raw visiting order.  Oracle: a Python dict.
 """
 import itertools, json
 import vlib
@@ -151,15 +153,35 @@ def gen_case(rng, primes, stats):
 
 
 def canon(out):
-    """drop the raw-order part of iteration lines"""
+    """drop the raw-order part of iteration lines (what the map oracle is compared with)"""
     res = []
     for l in out.rstrip("\n").split("\n"):
         res.append(l.split(" | ")[0] if l.startswith("it ") else l)
     return res
 
 
+def full(out):
+    """every output line as printed, INCLUDING the raw visiting order of iter/tolist lines: the model's
+    iter/tolist lines come from the cursor walk `iterWalk` / the loop `tolistWalk` (Model/HashTableIter.lean),
+    so the order in which the real iterator hands out the entries is compared exactly, not as a set"""
+    return [l.rstrip() for l in out.rstrip("\n").split("\n")]
+
+
 def raw_orders(out):
     return [l.split(" | ")[1] if " | " in l else "" for l in out.rstrip("\n").split("\n") if l.startswith("it ")]
+
+
+RAW = {"iteration_lines_compared_in_raw_order": 0, "entries_in_those_lines": 0, "longest": 0,
+       "lines_with_2+_entries": 0}
+
+
+def note_raw(out):
+    for r in raw_orders(out):
+        n = len(r.split(",")) if r.strip() else 0
+        RAW["iteration_lines_compared_in_raw_order"] += 1
+        RAW["entries_in_those_lines"] += n
+        RAW["longest"] = max(RAW["longest"], n)
+        RAW["lines_with_2+_entries"] += 1 if n >= 2 else 0
 
 
 def oracle(ops):
@@ -220,26 +242,31 @@ def split_cases(ops):
 
 
 def judge(c, binp, ops, label):
-    """compare implementation, model and oracle on one batch; on divergence shrink and report"""
+    """compare implementation, model and oracle on one batch; on divergence shrink and report.
+    Implementation and model are compared on the FULL lines (values, counts, sorted entries and the raw
+    visiting order of iter/tolist); the map oracle judges the canonical (order-free) part."""
     (rc, out, err), (rc2, mout, merr) = run_both(c, binp, ops)
     if rc2 != 0:
         c.oblige(f"model driver runs ({label})", False, merr[-500:])
         return False
-    co, cm = canon(out), canon(mout)
-    if rc == 0 and co == cm:
+    if rc == 0 and full(out) == full(mout):
+        note_raw(out)
         return True
     # locate the failing case
     for case in split_cases(ops):
         (rc, out, err), (_, mout, _) = run_both(c, binp, case)
-        if rc != 0 or canon(out) != canon(mout):
+        if rc != 0 or full(out) != full(mout):
             break
     else:
         c.oblige(f"correspondence ({label})", False, "batch diverges but no single case does")
         return False
     head, body = case[0], case[1:]
+    order_only = rc == 0 and canon(out) == canon(mout)
 
     def fails(sub):
         (r1, o1, _), (_, m1, _) = run_both(c, binp, [head] + sub)
+        if order_only:
+            return r1 == 0 and canon(o1) == canon(m1) and full(o1) != full(m1)
         return r1 != 0 or canon(o1) != canon(m1)
     small = vlib.ddmin(body, fails)
     sc = [head] + small
@@ -247,11 +274,18 @@ def judge(c, binp, ops, label):
     exp = oracle(sc)
     co = canon(out)
     impl_wrong = rc != 0 or any(e is not None and (i >= len(co) or co[i].rstrip() != e.rstrip()) for i, e in enumerate(exp))
-    c.oblige(f"correspondence model = implementation ({label})", False,
-             {"ops": sc, "impl": co, "model": canon(mout)})
-    c.violation({"kind": "hash-table history", "ops": sc, "implementation_output": co, "exit_code": rc,
-                 "stderr_tail": err[-1500:], "model_output": canon(mout), "map_oracle_expected": exp,
-                 "implementation_violates_property": impl_wrong,
+    if order_only:
+        c.oblige(f"raw visiting order of iter/tolist: implementation = cursor walk of the model ({label})", False,
+                 {"ops": sc, "impl_raw": raw_orders(out), "model_raw": raw_orders(mout),
+                  "note": "same entries, different order: hash_table_iter(_next)/hash_table_tolist or the chain "
+                          "layout (enter inserts after the head, delete promotes the next entry) no longer is what "
+                          "Model/HashTable(Iter).lean describes; the theorems C20_iter_* are about the old walk"})
+    else:
+        c.oblige(f"correspondence model = implementation ({label})", False,
+                 {"ops": sc, "impl": full(out), "model": full(mout)})
+    c.violation({"kind": "hash-table history", "ops": sc, "implementation_output": full(out), "exit_code": rc,
+                 "stderr_tail": err[-1500:], "model_output": full(mout), "map_oracle_expected": exp,
+                 "implementation_violates_property": impl_wrong, "only_the_visiting_order_differs": order_only,
                  "how_to_rerun": "python3 tools/check.py C20 --replay <this file>"}, impl_wrong)
     return False
 
@@ -287,7 +321,6 @@ def check(c):
             if not judge(c, binp, batch, f"generated batch ending at case {i}"):
                 allok = False
                 break
-            # informational: exact iteration order agreement
             batch = []
     exhaustive = 0
     if allok and c.tier == "thorough":
@@ -324,7 +357,10 @@ def check(c):
                     break
             if not allok:
                 break
-    c.oblige("correspondence: real hash_table.c (ASan/UBSan) = model on every generated history", allok)
+    c.oblige("correspondence: real hash_table.c (ASan/UBSan) = model on every generated history "
+             "(return values, counts, iter/tolist entries AND their raw visiting order = iterWalk/tolistWalk)", allok)
+    c.oblige("raw-order comparison exercised: iteration lines with >= 2 entries were compared in visiting order",
+             (not allok) or RAW["lines_with_2+_entries"] > 0, dict(RAW))
     c.cov.update({"evaluations": ncases + ncorp + exhaustive, "distinct_nontrivial": len(distinct) + exhaustive,
                   "rule": "random op histories (20-90 ops) over key pools aimed at one bucket, prefixes, case variants, empty key, "
                           "embedded zeros, high bytes; distinct = distinct op lists; every history has >= 3 colliding keys",
@@ -332,6 +368,7 @@ def check(c):
                   "table_sizes": {str(k): v for k, v in stats["sizes"].items()},
                   "max_distinct_keys_in_one_bucket": stats["max_chain_pool"],
                   "exhaustive_small_scope_sequences": exhaustive, "corpus_cases": ncorp,
+                  "raw_visiting_order": dict(RAW),
                   "histories_with_long_key_pairs (15..1000 bytes, common prefix 8..len-1)": stats.get("long_key_cases", 0),
                   "histories_with_shared_prefix_families": stats.get("shared_prefix_families", 0),
                   "histories_with_same_bucket_prefix_families": stats.get("same_bucket_prefix_families", 0)})
